@@ -125,13 +125,13 @@ fn main() {
             let trace = std::env::var_os("CBVERIF_TRACE").is_some();
             let units: Vec<_> = runner::enum_units(prop, false).into_iter().filter(|u| u.0 <= maxn).collect();
             let mut cases = 0u64;
+            let mut idx = 0usize;
             for (ui, (n, start, len)) in units.iter().enumerate() {
-                if ui % nparts != part {
-                    continue;
-                }
                 println!("UNIT {ui} N={n} start={start} len={len}");
-                for (k, item) in prop.enum_cases(*n, *start, *len, false).iter().enumerate() {
-                    if k % stride != ui % stride {
+                for item in prop.enum_cases(*n, *start, *len, false).iter() {
+                    // every `stride`-th case of the whole space, dealt round-robin to the processes
+                    idx += 1;
+                    if idx % stride != 0 || (idx / stride) % nparts != part {
                         continue;
                     }
                     if trace {
